@@ -20,6 +20,10 @@ macro_rules! cat_fixed_q {
         $m!(t_box_u16, Box<u16>, 4, 0);
         $m!(t_tup2, (u8, u32), 4, 0);
         $m!(t_tup3_packed, (u8, u8, u16), 4, 0);
+        $m!(t_tup3_reorder_a, (u8, u16, u8), 4, 0);
+        $m!(t_tup3_reorder_b, (u16, u32, u16), 4, 0);
+        $m!(t_tup2_reorder, (u8, u16), 4, 0);
+        $m!(t_tup2_same, (u16, u16), 4, 0);
         $m!(t_arr_u16_3, [u16; 3], 5, 0);
         $m!(t_arr_usize_2, [usize; 2], 5, 0);
         $m!(t_arr0, [u32; 0], 4, 0);
@@ -40,6 +44,15 @@ macro_rules! cat_fixed_t {
         $m!(t_cell_u16, std::cell::Cell<u16>, 4, 0);
         $m!(t_refcell_u16, std::cell::RefCell<u16>, 4, 0);
         $m!(t_tup1, (u64,), 4, 0);
+        $m!(t_tup3_c, (u32, u8, u8), 4, 0);
+        $m!(t_tup3_d, (u8, u32, u8), 4, 0);
+        $m!(t_tup3_e, (u16, u8, u8), 4, 0);
+        $m!(t_tup3_f, (u32, u32, u32), 4, 0);
+        $m!(t_tup3_g, (u8, u64, u8), 4, 0);
+        $m!(t_tup3_h, (u16, u16, u32), 4, 0);
+        $m!(t_tup2_b, (u32, u8), 4, 0);
+        $m!(t_tup2_c, (u64, u64), 4, 0);
+        $m!(t_tup3_bool, (bool, u8, u16), 4, 0);
         $m!(t_range_u32, std::ops::Range<u32>, 4, 0);
         $m!(t_arr_bool_2, [bool; 2], 5, 0);
         $m!(t_arr_char_1, [char; 1], 5, 0);
